@@ -210,6 +210,16 @@ func WorkerMain(t *testing.T, props []*Prop) {
 		if tier == "" {
 			tier = "quick"
 		}
+		for _, ps := range strings.Split(os.Getenv("VERIF_PRE_IDX"), ",") {
+			// debugging aid for cross-run state leaks: run these indices first
+			if ps == "" {
+				continue
+			}
+			pi, _ := strconv.Atoi(ps)
+			pseed := CaseSeed(envU64("VERIF_SEED", 1), p.ID, pi)
+			po := safeRun(p, t, p.Gen(simrt.NewRand(pseed), tier, pi), false)
+			fmt.Printf("PRE %d loghash %016x\n", pi, po.LogHash)
+		}
 		seed := CaseSeed(envU64("VERIF_SEED", 1), p.ID, idx)
 		c := p.Gen(simrt.NewRand(seed), tier, idx)
 		b, _ := json.Marshal(c)
